@@ -22,6 +22,7 @@ import json
 import logging
 import os
 import pathlib
+import re
 import subprocess
 import sys
 from argparse import Namespace, ArgumentParser
@@ -808,6 +809,18 @@ def parse_grammar(
                     file=stderr,
                 )
                 sys.exit(USAGE_ERROR)
+
+        used = {
+            nonterminal
+            for expansions in grammar.values()
+            for expansion in expansions
+            for nonterminal in re.findall(r"<[^<> ]+>", expansion)
+        }
+        if "<start>" not in grammar or not used.issubset(grammar):
+            raise SyntaxError(
+                "the grammar has no rule for "
+                + ", ".join(sorted(({"<start>"} | used) - set(grammar)))
+            )
 
     except Exception as exc:
         exc_string = str(exc)
